@@ -59,6 +59,32 @@ class JSFunc:
     def __init__(self, name):
         self.name = name
 
+# Objects by reference (types.js closures: struct copy, comparability).
+#   JSRec   a value object (a struct value): identity `ref`, properties addressed by computed keys; contents live in the
+#           record heap st.ghost[('rech',)] : ref -> (key -> value).
+#   JSDesc  an immutable descriptor (a type, a field descriptor): every field is a function of the identity.
+#   JSDescFn a function-valued field of a descriptor (`f.typ.copy`): calling it is an abstract call, recorded in ghost state.
+#   JSStrId a string-valued descriptor field (`f.prop`, `f.name`): only its identity is used (as a property key, in ===).
+class RecV:
+    """a value object in a specification: identity and the row of the record heap in the state the expression is read in"""
+    def __init__(self, ref, row): self.ref, self.row = ref, row
+class JSRec:
+    def __init__(self, ref): self.ref = ref
+class JSDesc:
+    def __init__(self, ref): self.ref = ref
+class JSDescFn:
+    def __init__(self, owner, name): self.owner, self.name = owner, name
+class JSStrId:
+    def __init__(self, id): self.id = id
+DESC_REF_FIELDS = {'typ', 'elem'}
+DESC_STR_FIELDS = {'prop', 'name', 'pkg', 'tag'}
+DESC_BOOL_FIELDS = {'comparable', 'embedded', 'exported', 'named', 'wrapped'}
+DESC_INT_FIELDS = {'kind', 'size', 'len'}
+DESC_FN_FIELDS = {'copy', 'zero', 'keyFor'}
+def desc_field(ref, name):
+    if name in DESC_BOOL_FIELDS: return z3.Function('fld_' + name, I, B)(ref)
+    return z3.Function('fld_' + name, I, I)(ref)
+
 HEAP = z3.ArraySort(I, ArrII)
 
 from .gocalls import CallsMixin
@@ -361,6 +387,16 @@ class JSExec(GoExec, SpecMixin, CallsMixin):
     def binop_js(self, st, op, a, b, line):
         if self.mode == 'fp' and isinstance(a, z3.ExprRef) and isinstance(b, z3.ExprRef) and z3.is_fp(a) and z3.is_fp(b):
             return self.binop_fp(st, op, a, b, line)
+        if isinstance(a, JSStrId) or isinstance(b, JSStrId):
+            if op not in ('===', '!==', '==', '!='):
+                raise Unsupported('operator %s on a descriptor string @%s' % (op, line))
+            r = self.as_key(a) == self.as_key(b)        # strings as identities: equal identities, equal strings
+            return r if op in ('===', '==') else z3.Not(r)
+        if isinstance(a, (JSRec, JSDesc)) or isinstance(b, (JSRec, JSDesc)):
+            if op in ('===', '!==', '==', '!=') and isinstance(a, (JSRec, JSDesc)) and isinstance(b, (JSRec, JSDesc)):
+                r = a.ref == b.ref
+                return r if op in ('===', '==') else z3.Not(r)
+            raise Unsupported('operator %s on an object @%s' % (op, line))
         if op in ('===', '!==') and isinstance(a, OptNum) and isinstance(b, JSUndef):
             return a.undef if op == '===' else z3.Not(a.undef)
         if op in ('===', '!==', '==', '!=') and isinstance(a, JSObj) and isinstance(b, JSFunc) and b.name.endswith('.nil') and '$nil' in a.fields:
@@ -594,10 +630,16 @@ class JSExec(GoExec, SpecMixin, CallsMixin):
             obj = self.ev(st, target['object'])
             if target['computed']:
                 i = self.ev(st, target['property'])
+                if isinstance(obj, JSRec):
+                    h = self.rech(st)
+                    st.ghost[('rech',)] = z3.Store(h, obj.ref, z3.Store(z3.Select(h, obj.ref), self.as_key(i), self.as_cell(v)))
+                    return
                 if isinstance(obj, JSArr):
                     self.arr_write(st, obj, i, v, self.line(target))
                     return
                 raise Unsupported('computed assignment on %r' % (obj,))
+            if isinstance(obj, JSRec):
+                raise Unsupported('static property assignment on a value object')
             name = target['property']['name']
             if isinstance(obj, JSObj):
                 obj.fields[name] = v      # objects created in the function are mutable records
@@ -637,10 +679,50 @@ class JSExec(GoExec, SpecMixin, CallsMixin):
         if a.off is not None: i = a.off + i
         st.ghost[('jsheap',)] = z3.Store(h, a.ident, z3.Store(z3.Select(h, a.ident), i, v))
 
+    def rech(self, st):
+        if ('rech',) not in st.ghost:
+            st.ghost[('rech',)] = z3.Const('RECHEAP', HEAP)
+        return st.ghost[('rech',)]
+
+    def callghost(self, st, name, which):
+        k = ('callghost', name, which)
+        if k not in st.ghost:
+            st.ghost[k] = z3.Const('CALL_%s_%s' % (name, which), ArrII)
+        return st.ghost[k]
+
+    def strlit_id(self, lit):
+        tab = self.__dict__.setdefault('_strlit_ids', {})
+        return z3.IntVal(tab.setdefault(bytes(lit), -1000 - len(tab)))       # distinct literals: distinct (negative) identities
+
+    def as_key(self, v):
+        if isinstance(v, JSStrId): return v.id
+        if isinstance(v, StrV) and v.lit is not None: return self.strlit_id(v.lit)
+        if isinstance(v, z3.ExprRef) and z3.is_int(v): return v
+        raise Unsupported('property key %r' % (v,))
+
+    def as_cell(self, v):
+        if isinstance(v, (JSRec, JSDesc)): return v.ref
+        if isinstance(v, z3.ExprRef) and z3.is_int(v): return v
+        raise Unsupported('a value that cannot be stored in a record: %r' % (v,))
+
     def js_MemberExpression(self, st, e):
         obj = self.ev(st, e['object'])
+        if isinstance(obj, JSRec):
+            if not e['computed']:
+                raise Unsupported('static property .%s of a value object' % e['property']['name'])
+            k = self.as_key(self.ev(st, e['property']))
+            return z3.Select(z3.Select(self.rech(st), obj.ref), k)
+        if isinstance(obj, JSDesc) and not e['computed']:
+            name = e['property']['name']
+            if name in DESC_FN_FIELDS: return JSDescFn(obj, name)
+            if name in DESC_REF_FIELDS: return JSDesc(desc_field(obj.ref, name))
+            if name in DESC_STR_FIELDS: return JSStrId(desc_field(obj.ref, name))
+            if name in DESC_BOOL_FIELDS or name in DESC_INT_FIELDS: return desc_field(obj.ref, name)
+            raise Unsupported('descriptor field .%s' % name)
         if e['computed']:
             i = self.ev(st, e['property'])
+            if isinstance(obj, JSArr) and obj.kind == 'desc':
+                return JSDesc(self.arr_read(st, obj, i, self.line(e)))
             if isinstance(obj, JSArr):
                 if getattr(obj, 'isnil', None) is not None and self.fork(st, obj.isnil):
                     return UNDEF
@@ -781,6 +863,22 @@ class JSExec(GoExec, SpecMixin, CallsMixin):
                                     patterns=[z3.Select(na, k)]))
                 return StrV(na, z3.IntVal(0), src.length)
             obj = self.ev(st, c['object'])
+            if isinstance(obj, JSDesc) and mname == 'copy' and len(args) == 2:
+                # f.typ.copy(a, b), the copy function of another type: an abstract call.  It writes the object a (and nothing
+                # that this function can see besides) and is recorded: copiedFrom(a) = b, copiedBy(a) = the type.
+                a, b = self.as_cell(self.ev(st, args[0])), self.as_cell(self.ev(st, args[1]))
+                self.assumed.add('typ.copy(dst, src) of a field type writes the object dst only (assumed frame of the callee)')
+                h = self.rech(st)
+                st.ghost[('rech',)] = z3.Store(h, a, fresh('copied.row', ArrII))
+                st.ghost[('callghost', 'copy', 'from')] = z3.Store(self.callghost(st, 'copy', 'from'), a, b)
+                st.ghost[('callghost', 'copy', 'by')] = z3.Store(self.callghost(st, 'copy', 'by'), a, obj.ref)
+                return UNDEF
+            if isinstance(obj, z3.ExprRef) and z3.is_int(obj) and mname == 'slice' and ('rech',) in st.ghost:
+                # x.slice(...) on an object read from a value object: a new array object (Array.prototype.slice never returns its
+                # receiver); its contents are not modelled
+                for a in args: self.ev(st, a)
+                r = fresh('slice.obj'); st.assume(z3.And(r > 0, r != obj))
+                return r
             if isinstance(obj, JSObj) and obj.ctor == 'Type' and mname == 'zero':
                 return fresh('zero')           # the element type's zero value: opaque
             if isinstance(obj, StrV):
@@ -1002,6 +1100,16 @@ class JSExec(GoExec, SpecMixin, CallsMixin):
             for k, v in n.items():
                 if k != 'loc' and isinstance(v, (dict, list)): self.assigned_js(v, acc, heapw)
 
+    def calls_desc_method(self, n):
+        if isinstance(n, list):
+            return any(self.calls_desc_method(x) for x in n)
+        if isinstance(n, dict):
+            if n.get('type') == 'CallExpression' and n['callee'].get('type') == 'MemberExpression' and not n['callee'].get('computed') \
+               and n['callee']['property'].get('name') in DESC_FN_FIELDS:
+                return True
+            return any(self.calls_desc_method(v) for k, v in n.items() if k != 'loc' and isinstance(v, (dict, list)))
+        return False
+
     def js_loop(self, st, s, label, test, update, body):
         key = (s['loc']['start']['line'], s['loc']['start']['column'])
         no = self.frame.loops.get(key)
@@ -1043,6 +1151,20 @@ class JSExec(GoExec, SpecMixin, CallsMixin):
             for name in mod:
                 if name in h.env:
                     h.env[name] = self.js_havoc(h, h.env[name], name)
+            recw = []
+            for on in list(heapw):
+                try:
+                    if isinstance(self.ev(h.clone(), on), JSRec): recw.append(on); heapw.remove(on)
+                except Unsupported:
+                    pass
+            if recw or self.calls_desc_method(body):
+                # writes to value objects and abstract calls: the record heap and the call ghosts are havocked (the invariants
+                # say what is known about them)
+                h.ghost[('rech',)] = fresh('RECHEAP', HEAP)
+                for k in [k for k in h.ghost if isinstance(k, tuple) and k and k[0] == 'callghost']:
+                    h.ghost[k] = fresh('CALLG', ArrII)
+                for which in ('from', 'by'):
+                    h.ghost[('callghost', 'copy', which)] = fresh('CALLG', ArrII)
             if heapw:
                 # element writes: the whole array heap is havocked except arrays named in `loop n preserves`
                 newh = fresh('JSHEAP', HEAP)
@@ -1159,16 +1281,27 @@ class JSExec(GoExec, SpecMixin, CallsMixin):
             s.isfresh = v.ident.get_id() in st.meta.get('fresh_js', set())
             s.plain = v.plain if v.plain is not None else z3.BoolVal(False)
             return s
+        if isinstance(v, JSRec):
+            r = RecV(v.ref, z3.Select(self.rech(st), v.ref)); return r
+        if isinstance(v, JSDesc): return v.ref
+        if isinstance(v, JSStrId): return v.id
         if isinstance(v, JSObj):
             return StructV(None, {k: self.to_spec(st, x, depth + 1) for k, x in v.fields.items() if x is not v})
         if isinstance(v, JSTuple):
             return TupleV([self.to_spec(st, x, depth + 1) for x in v.items])
         return v
 
+    def spec_index(self, env, x, i):
+        if isinstance(x, RecV):
+            return z3.Select(x.row, i)
+        return SpecMixin.spec_index(self, env, x, i)
+
     def spec_sel(self, env, e):
         x = self.sev(env, e[1])
         if isinstance(x, StructV) and e[2] in x.fields:
             return x.fields[e[2]]
+        if isinstance(x, z3.ExprRef) and z3.is_int(x) and e[2] in (DESC_REF_FIELDS | DESC_STR_FIELDS | DESC_BOOL_FIELDS | DESC_INT_FIELDS):
+            return desc_field(x, e[2])            # a field of a descriptor object: a function of its identity
         if isinstance(x, TupleV) and e[2] in ('_0', '_1', '_2'):
             return x.vals[int(e[2][1])]
         return SpecMixin.spec_sel(self, env, e)
@@ -1221,6 +1354,17 @@ class JSExec(GoExec, SpecMixin, CallsMixin):
             return JSObj({'$array': arr, '$offset': off, '$length': ln, '$capacity': cap, '$nil': nil, '$elemtype': self.make_param(st, name + '.elem', 'elemtype')}, ctor='Slice', ref=fresh('obj'))
         if ty == 'elemtype':
             return JSObj({'kind': self.make_param(st, name + '.kind', 'nat')}, ctor='Type', ref=fresh('obj'))
+        if ty == 'rec':
+            r = fresh(name + '.ref'); st.pc.append(r > 0)
+            return JSRec(r)
+        if ty == 'desc':
+            r = fresh(name + '.ref'); st.pc.append(r > 0)
+            return JSDesc(r)
+        if ty == 'descarr':
+            a = self.make_param(st, name, 'arr'); a.kind = 'desc'; a.plain = z3.BoolVal(True)
+            return a
+        if ty.startswith('flags '):      # a mutable record of boolean fields: `flags comparable`
+            return JSObj({f: fresh(name + '.' + f, B) for f in ty.split()[1:]}, ref=fresh('obj'))
         if ty == 'slicetype':
             return JSObj({'$isArray': fresh(name + '.isArray', B), 'elem': JSObj({}, ctor='Type', ref=fresh('obj'))}, ctor='SliceType', ref=fresh('obj'))
         if ty.startswith('arrptr'):     # pointer to an array of static length: the array itself, or the nil pointer object
@@ -1251,7 +1395,43 @@ class JSExec(GoExec, SpecMixin, CallsMixin):
         return None, None
 
     def find_region(self, fn, label):
-        """the function expression assigned inside `case <label>:` of a switch in fn (cut from the ESTree at check time)"""
+        """the function expression assigned inside `case <label>:` of a switch in fn (cut from the ESTree at check time);
+        `<label>:<member>` is the function assigned to `<anything>.<member>` inside that case, `<label>:forEach<n>` the n-th
+        function passed to a `.forEach(` call inside it (source order)"""
+        sub = None
+        if ':' in label:
+            label, sub = label.split(':', 1)
+        if sub is not None:
+            cases = []
+            def wcase(n):
+                if isinstance(n, list):
+                    for x in n: wcase(x)
+                elif isinstance(n, dict):
+                    if n.get('type') == 'SwitchCase' and n.get('test') and n['test'].get('type') == 'Identifier' and n['test']['name'] == label and n.get('consequent'):
+                        cases.append(n['consequent'])
+                    for k, v in n.items():
+                        if k != 'loc' and isinstance(v, (dict, list)): wcase(v)
+            wcase(fn['body'])
+            if not cases: return None
+            hits = []
+            m = re.match(r'forEach(\d+)$', sub)
+            def wsub(n):
+                if isinstance(n, list):
+                    for x in n: wsub(x)
+                elif isinstance(n, dict):
+                    fe = ('FunctionExpression', 'ArrowFunctionExpression')
+                    if m:
+                        if n.get('type') == 'CallExpression' and n['callee'].get('type') == 'MemberExpression' and not n['callee'].get('computed') \
+                           and n['callee']['property'].get('name') == 'forEach' and n['arguments'] and n['arguments'][0].get('type') in fe:
+                            hits.append(n['arguments'][0])
+                    elif n.get('type') == 'AssignmentExpression' and n['left'].get('type') == 'MemberExpression' and not n['left'].get('computed') \
+                         and n['left']['property'].get('name') == sub and n['right'].get('type') in fe:
+                        hits.append(n['right'])
+                    for k, v in n.items():
+                        if k != 'loc' and isinstance(v, (dict, list)): wsub(v)
+            wsub(cases[0])
+            idx = int(m.group(1)) - 1 if m else 0
+            return hits[idx] if idx < len(hits) else None
         found = []
         def fexpr(n):
             if isinstance(n, list):
@@ -1335,6 +1515,11 @@ class JSExec(GoExec, SpecMixin, CallsMixin):
                 raise Unsupported('contract gives no type for parameter %s' % pn)
             st.env[pn] = self.make_param(st, pn, ptypes[pn])
         fr.defaults = defaults
+        for cl in c.get('captured'):          # free variables of a nested function: symbolic like parameters
+            for part in cl.text.split(','):
+                n, t = part.split(':')
+                ptypes[n.strip()] = t.strip()
+                st.env[n.strip()] = self.make_param(st, n.strip(), t.strip())
         for cl in c.get('ghost'):
             self.ghost_assign(st, SpecEnv(st, self.spec_binds(st), None), cl)
         entry = st.clone(); st.entry = entry; entry.entry = entry
